@@ -17,6 +17,10 @@ CLAIMED = {
             "Static, thin but pointed: both composite-key encoders feed (checked big-endian u16 length, bytes, one zero byte) per component in that order and the value only for single keys; every tail byte of the Murmur3 finaliser is sign-extended through i8; the six incompressible constants and the rotation counts equal MurmurHash3_x64_128; Token::new maps i64::MIN to i64::MAX and finish() returns through it; key components are placed by partition-key position and fetched by bind-marker index. That the arithmetic equals the server's for all inputs and chunkings is numerical and not decided.",
             "Trusts rustc MIR; reference constants transcribed by hand.",
             "DESIGN.md §3 C03"),
+    "C05": ("CFG cut rules for the failover gates, dataflow regions on the statement type + call-graph reachability for randomness, def-use shape of the iterator composition, call-graph reachability of every selection predicate",
+            "Static, thin: every selection from the whole cluster in pick()/fallback() is reachable only through the true outcome of is_datacenter_failover_possible or `no preferred DC`; the LWT arms never reach shuffling/random choice and ask for the deterministic order; fallback() de-duplicates exactly once, as the last step, and returns that iterator; every predicate handed to a selector consults is_enabled / is_alive / pick_predicate. Completeness and the relative order of groups are properties of iterator contents and are not decided.",
+            "Trusts rustc MIR and itertools::unique_by semantics.",
+            "DESIGN.md §3 C05"),
     "C06": ("MIR abstract-state dataflow over the retry decision tables + CFG cut rules on the retry loop",
             "Static, all-paths: the full decision table of every workspace impl RetrySession is extracted from type-checked MIR and every Retry* site is shown to lie where is_idempotent is true or the error class is within the SAFE set; the interpreting loop is shown (reachability after cuts) to re-send only through a Retry* decision. Decides the structural clauses, not end-to-end frame counts.",
             "Trusts rustc MIR construction; SAFE set transcribed from the property text; user-supplied policies out of scope.",
